@@ -95,19 +95,20 @@ Definition half_packet (h : half) (p : packet) : half * list N * bool :=
         end
   end.
 
-(* flushClose: segments queued before [ts - timeout] are delivered across the gap (skipFlush) *)
-Fixpoint flush_pages (fuel : nat) (h : half) (ts : N) (acc : list (pref * list N)) : half * list (pref * list N) * bool :=
+(* flushClose: segments queued before [ts - timeout] ([old] = that test on the time a page was queued) are
+   delivered across the gap (skipFlush); FlushAll uses the same loop with [old] = everything *)
+Fixpoint flush_pages (fuel : nat) (h : half) (old : N -> bool) (acc : list (pref * list N)) : half * list (pref * list N) * bool :=
   match fuel with
   | O => (h, acc, false)
   | S f =>
     match h_queue h with
     | [] => (h, acc, false)
     | pg :: r =>
-      if expired ts (pg_seen pg) then
+      if old (pg_seen pg) then
         let '(q', nx, bytes, fin) := pull r (pg_seq pg + lenN (pg_bytes pg)) (pg_bytes pg) (pg_end pg) in
         let h' := mkHalf (Some nx) q' (h_closed h) (h_last h) in
         if fin then (h', acc ++ [(pg_ref pg, bytes)], true)
-        else flush_pages f h' ts (acc ++ [(pg_ref pg, bytes)])
+        else flush_pages f h' old (acc ++ [(pg_ref pg, bytes)])
       else (h, acc, false)
     end
   end.
@@ -132,7 +133,7 @@ Definition flush_conn (fac : factory) (c : tconn) (ts : N) : factory * option tc
   let fl (h : half) :=
       if h_closed h then (h, [])
       else
-        let '(h1, ds, closedNow) := flush_pages (S (length (h_queue h))) h ts [] in
+        let '(h1, ds, closedNow) := flush_pages (S (length (h_queue h))) h (expired ts) [] in
         if closedNow then (close_half h1, ds)
         else match h_queue h1 with
              | [] => if expired ts last then (close_half h1, ds) else (h1, ds)
@@ -153,6 +154,16 @@ Fixpoint tcp_flush (fac : factory) (pool : list tconn) (ts : N) : factory * list
     let '(fac2, r') := tcp_flush fac1 r ts in
     match oc with Some c' => (fac2, c' :: r') | None => (fac2, r') end
   end.
+
+(* Assembler.FlushAll (not called by the unpatched FromPcap; see fixes/C08-flush-queued-at-end.patch):
+   every half delivers everything it still has queued, gaps skipped, and is closed *)
+Definition flush_all_conn (fac : factory) (c : tconn) : factory :=
+  let fl (h : half) :=
+      if h_closed h then []
+      else let '(_, ds, _) := flush_pages (S (length (h_queue h))) h (fun _ => true) [] in ds in
+  upd_nth fac (tc_sid c) (fun s => set_complete (add_datas s (fl (tc_s2c c) ++ fl (tc_c2s c)))).
+
+Definition tcp_flush_all (fac : factory) (pool : list tconn) : factory := fold_left flush_all_conn pool fac.
 
 (* getHalf: the key or the reversed key *)
 Fixpoint pool_find (pool : list tconn) (pos : nat) (src dst : endpoint) : option (nat * tconn * bool) :=
